@@ -2,6 +2,7 @@ import Driver.Loop
 import ElaVerif.Model.P2PFrame
 import ElaVerif.Model.Sha256
 import ElaVerif.Model.P2PMsg
+import ElaVerif.Model.P2PCodec
 import ElaVerif.Gen.C35
 open ElaVerif.P2PFrame Driver
 
@@ -52,15 +53,32 @@ def decodeFlag (st flag : String) : Bytes → Bytes → Option Bytes :=
     | some ok => if ok then some p else none
     | none => if flag = "1" then some p else none
 
+/-- value-level codec: the layout table of `Model/P2PCodec.lean`; `none` = command without a model -/
+def codec (st : String) (c : Bytes) (p : Bytes) : Option (Option ElaVerif.P2PCodec.Msg) :=
+  (ElaVerif.P2PCodec.layoutOfStr st (cmdStr c)).map fun l => ElaVerif.P2PCodec.decodeMsg l p
+
+def reencode (st : String) (c : Bytes) (m : ElaVerif.P2PCodec.Msg) : Bytes :=
+  match ElaVerif.P2PCodec.layoutOfStr st (cmdStr c), m with
+  | some l, m => ElaVerif.P2PCodec.encodeMsg l m
+  | none, _ => []
+
+/-- decoder used by `read`/`corrupt`: the value-level codec where there is one, then the accept
+    models of `P2PMsg`, then the oracle flag.  Both models must agree with the real decoder. -/
+def decodeAny (st flag : String) : Bytes → Bytes → Option Bytes :=
+  fun c p =>
+    match codec st c p with
+    | some r => r.map fun _ => p
+    | none => decodeFlag st flag c p
+
 def step : List String → String
   | ["read", st, magic, dflag, stream] =>
     match stack? st, nat? magic, hexBytes? stream with
-    | some t, some m, some s => fmtOut (readMessage H t (decodeFlag st dflag) m s)
+    | some t, some m, some s => fmtOut (readMessage H t (decodeAny st dflag) m s)
     | _, _, _ => "bad-op"
   | ["corrupt", st, magic, dflag, frame, pos, nb] =>
     match stack? st, nat? magic, hexBytes? frame, nat? pos, nat? nb with
     | some t, some m, some s, some p, some b =>
-      fmtOut (readMessage H t (decodeFlag st dflag) m (s.set p (UInt8.ofNat b)))
+      fmtOut (readMessage H t (decodeAny st dflag) m (s.set p (UInt8.ofNat b)))
     | _, _, _, _, _ => "bad-op"
   | ["hdr", buf] =>
     match hexBytes? buf with
@@ -116,9 +134,16 @@ def step : List String → String
     | some t, some m, some p =>
       match writeMessage H m (strBytes cmd) ((lookup t (strBytes cmd)).getD 0) p with
       | .ok f =>
-        match (readMessage H t (fun _ q => some q) m f).res with
-        | .ok (c, q) => s!"ok {cmdStr c} {toHex q}"
-        | .error e => s!"err {errStr e}"
+        match ElaVerif.P2PCodec.layoutOfStr st cmd with
+        | some l =>
+          -- decode to a value and print its re-encoding: must equal the real message's re-serialization
+          match (readMessage H t (fun _ q => ElaVerif.P2PCodec.decodeMsg l q) m f).res with
+          | .ok (c, v) => s!"ok {cmdStr c} {toHex (ElaVerif.P2PCodec.encodeMsg l v)}"
+          | .error e => s!"err {errStr e}"
+        | none =>
+          match (readMessage H t (fun _ q => some q) m f).res with
+          | .ok (c, q) => s!"ok {cmdStr c} {toHex q}"
+          | .error e => s!"err {errStr e}"
       | .error .sizeExceeded => "werr size"
       | .error .panic => "panic"
     | _, _, _ => "bad-op"
